@@ -261,3 +261,21 @@ def is_char_boundary_model(ex, st, fr, name, args, dty):
     cb, facts = char_boundary(ex, st, args[0], ln)
     st.pc.extend(facts)
     return [(st, VBool(z3.And(z3.ULE(args[1].e, ln), cb(args[1].e))), 'ok', '')]
+
+
+@model(r'(^|::)String::(truncate|split_off|insert|insert_str|remove)$')
+def string_offset_model(ex, st, fr, name, args, dty):
+    """String mutators taking a byte offset panic when it is past the end or not a char boundary (truncate beyond the end is a no-op)"""
+    ln, _ = container_len(ex, st, args[0])
+    off = args[1] if len(args) > 1 else None
+    if not isinstance(off, VInt):
+        return None
+    op = strip_generics(name).split('::')[-1]
+    cb, facts = char_boundary(ex, st, args[0], ln)
+    inside = z3.ULE(off.e, ln) if op != 'remove' else z3.ULT(off.e, ln)
+    cond = z3.Or(z3.UGT(off.e, ln), cb(off.e)) if op == 'truncate' else z3.And(inside, cb(off.e))
+
+    def cont(s2):
+        return ex.uninterp(s2, fr, name, args, dty)
+    st.pc.extend(facts)
+    return fork(ex, st, fr, cond, 'String::%s: offset is past the end or not a char boundary' % op, cont)
